@@ -469,7 +469,7 @@ pub fn run(eng: &mut Engine) {
         PartCfg::new(
             "random",
             "random locations from tokens (printable ASCII, non-ASCII incl. bidi/BOM characters, separators, dot segments, percent escapes, scheme-like prefixes, tabs/newlines, 200-300 character names, absolute sandbox paths) x 3 outcomes; non-trivial as in [grammar]; distinct by case",
-            eng.tier.pick(30_000, 600_000),
+            eng.tier.pick(20_000, 600_000),
         )
         .limit_s(60),
         random_case,
